@@ -95,7 +95,7 @@ class H:
                  bounds='', stubs=(), assumptions=(), out_of_claim='', samples=(), native=True, sanitize=True,
                  object_bits=None, backends=('cadical',), native_srcs=None, native_extra=(), tiers=('quick', 'thorough'),
                  include_src=(), irc_extra_cc=(), no_checks=False, native_cflags=(), witness_unwind=None, tv=True,
-                 native_cc_defs=(), slice_formula=False, tracked=(), allow_undef=(), native_lib=(), unwind_is_violation=False, shadow_scope=False):
+                 native_cc_defs=(), slice_formula=False, tracked=(), allow_undef=(), native_lib=(), unwind_is_violation=False, shadow_scope=False, pregen=None):
         self.name = name; self.engine = engine; self.harness = harness
         self.repo_srcs = list(repo_srcs); self.wrapper = wrapper; self.extra = list(extra); self.models = list(models)
         self.entry = entry
@@ -120,6 +120,7 @@ class H:
         self.slice_formula = slice_formula
         self.tracked = list(tracked); self.allow_undef = list(allow_undef)
         self.unwind_is_violation = unwind_is_violation   # a loop running past the unwind bound is itself the defect (replayed under ASan)
+        self.pregen = pregen   # callable(wd): writes files generated from /repo's current source (e.g. a sliced function) into wd, which is on the include path
         self.shadow_scope = shadow_scope   # E1: use per-run copies of include/express/*.h in which Scope_.u is a struct (CBMC simplifier bug on unions)
         self.native_lib = list(native_lib)   # repo source dirs compiled once per run into a static archive for native builds
 
@@ -177,7 +178,9 @@ def build_goto_c(h, tier, wd, extra_defs, tag):
     if h.shadow_scope:
         d = shadow_express_headers(wd)
         sh = ['-I' + d, '-I' + os.path.join(d, 'express'), '-I' + os.path.join(d, 'exppp')]
-    flags = sh + [std, '-DNDEBUG', '-DVERIF_CBMC=1', '-w', '-I' + os.path.join(LIB, 'cshadow')] + repo_includes() + ['-I' + REPO, '-I' + LIB, '-I' + os.path.dirname(vpath(h.harness))] + h.cflags
+    if h.pregen:
+        h.pregen(wd)
+    flags = sh + ['-I' + wd, std, '-DNDEBUG', '-DVERIF_CBMC=1', '-w', '-I' + os.path.join(LIB, 'cshadow')] + repo_includes() + ['-I' + REPO, '-I' + LIB, '-I' + os.path.dirname(vpath(h.harness))] + h.cflags
     defs = defflags(dict(h.tier_defs(tier), **extra_defs))
     objs = []
     for i, src in enumerate(h.repo_srcs):
@@ -433,7 +436,9 @@ def build_native_real(h, tier, wd, extra_defs, sanitize):
     san = SAN if sanitize else []
     objs = []
     if h.engine == 'c':
-        flags = [c_std(), '-DNDEBUG', '-w', '-g', '-O0', '-fno-pie'] + repo_includes() + ['-I' + REPO, '-I' + LIB, '-I' + os.path.dirname(vpath(h.harness))] + h.cflags + h.native_cflags
+        if h.pregen:
+            h.pregen(wd)
+        flags = ['-I' + wd, c_std(), '-DNDEBUG', '-w', '-g', '-O0', '-fno-pie'] + repo_includes() + ['-I' + REPO, '-I' + LIB, '-I' + os.path.dirname(vpath(h.harness))] + h.cflags + h.native_cflags
         srcs = [rpath(s) for s in (h.native_srcs if h.native_srcs is not None else h.repo_srcs)] + [vpath(h.harness)] + [vpath(x) for x in h.extra + h.native_extra]
         for i, s in enumerate(srcs):
             o = os.path.join(wd, 'n%d%s.o' % (i, '_san' if sanitize else ''))
@@ -674,6 +679,9 @@ def check_harness(prop, h, tier, scratch, log):
             trace = pm['traces'].get(fid) or next(iter(pm['traces'].values()), '')
             inputs = trace_inputs(trace)
             descs = ['%s: %s' % (p[0], p[1]) for p in fails]
+            if any('no body for callee' in p[1] or 'stub:' in p[1] or 'model:' in p[1] for p in fails):
+                # an assertion of the translator / of a model about its own completeness is never a property violation
+                raise Fault('encoding incomplete on %s: %s' % (h.name, descs[:3]))
             tag = hashlib.sha256(json.dumps(inputs, sort_keys=True).encode()).hexdigest()[:10]
             rdir = os.path.join(VERIF, 'replay', prop); os.makedirs(rdir, exist_ok=True)
             rfile = os.path.join(rdir, '%s-%s.in' % (h.name, tag))
